@@ -71,7 +71,7 @@ def atom(op, a, b):
 
 
 def freeze(l):
-    return (l[0], tuple(sorted(l[1].items())))
+    return (l[0], tuple(sorted(l[1].items(), key=repr)))
 
 
 def negate(at):
